@@ -57,6 +57,10 @@ def normalise_program(trees: Dict[str, ast.Module], pkgs: Set[str]) -> None:
     for m, t in trees.items():
         if not (".tests" in m or m.endswith("tests")):
             _objects_to_closures(t)
+            for _ in range(3):
+                if not _helpers_to_closures(t, trees):
+                    break
+            _role_names(t)
     inlined = False
     for _ in range(4):  # helpers calling helpers
         helpers = {m: _collect_helpers(t) for m, t in trees.items()}
@@ -78,6 +82,9 @@ def normalise_program(trees: Dict[str, ast.Module], pkgs: Set[str]) -> None:
         _strip_casts(t)
         _scalarize_records(t)
         _while_true(t)
+        _rotate_carried(t)
+        _drain_loops(t)
+        _clamp_idiom(t)
         _next_sentinel(t)
         _return_temp(t)
         ast.fix_missing_locations(t)
@@ -86,6 +93,173 @@ def normalise_program(trees: Dict[str, ast.Module], pkgs: Set[str]) -> None:
 # ---------------------------------------------------------------------------
 
 EXHAUSTED = "__EXHAUSTED__"
+
+
+ROLE_ANCHORS = [
+    # (enclosing function, anchor name the rules use, what identifies the nested function that plays the role)
+    ("from_notes", "push_measure", "groupby-over-own-parameter"),
+]
+
+
+def _role_names(tree: ast.Module) -> None:
+    """A nested function that plays the part of an anchored closure under another name gets the anchor's name (rules address it by name)."""
+    for fn in [n for n in ast.walk(tree) if isinstance(n, ast.FunctionDef)]:
+        for outer, anchor, role in ROLE_ANCHORS:
+            if fn.name != outer:
+                continue
+            nested = [x for x in fn.body if isinstance(x, ast.FunctionDef)]
+            if any(x.name == anchor for x in nested):
+                continue
+            names = {n.id for n in ast.walk(fn) if isinstance(n, ast.Name)} | {a.arg for a in ast.walk(fn) if isinstance(a, ast.arg)}
+            if anchor in names:
+                continue
+            cands = []
+            for x in nested:
+                ps = set(_params_of(x))
+                if role == "groupby-over-own-parameter" and any(
+                        isinstance(n, ast.For) and isinstance(n.iter, ast.Call) and ast.unparse(n.iter.func) in ("groupby", "itertools.groupby") and n.iter.args
+                        and isinstance(n.iter.args[0], ast.Name) and n.iter.args[0].id in ps for n in _own_nodes(x)):
+                    cands.append(x)
+            if len(cands) != 1:
+                continue
+            old = cands[0].name
+            cands[0].name = anchor
+            for n in ast.walk(fn):
+                if isinstance(n, ast.Name) and n.id == old:
+                    n.id = anchor
+
+
+def _helpers_to_closures(tree: ast.Module, trees: Dict[str, ast.Module]) -> bool:
+    """A private module-level function that is used only inside one function F of its module, and whose leading parameters receive the same
+    never-reassigned local / parameter of F at every call, becomes a nested function of F over those names (the inverse of lifting a closure
+    to module level).  Nothing else can call it, so nothing else can observe the move."""
+    changed = False
+    top_funcs = {st.name: st for st in tree.body if isinstance(st, ast.FunctionDef)}
+    for name, h in list(top_funcs.items()):
+        if not name.startswith("_") or name.startswith("__") or name in anchors() or h.decorator_list or h.args.vararg or h.args.kwarg or h.args.kwonlyargs or h.args.posonlyargs:
+            continue
+        if any(isinstance(n, (ast.Global, ast.Nonlocal, ast.Yield, ast.YieldFrom, ast.Await)) for n in ast.walk(h)) and any(isinstance(n, (ast.Global, ast.Nonlocal)) for n in ast.walk(h)):
+            continue
+        # imported elsewhere?
+        used_elsewhere = False
+        for t in trees.values():
+            if t is tree:
+                continue
+            for n in ast.walk(t):
+                if isinstance(n, ast.ImportFrom) and any(a.name == name for a in n.names):
+                    used_elsewhere = True
+                if isinstance(n, ast.Attribute) and n.attr == name:
+                    used_elsewhere = True
+        if used_elsewhere:
+            continue
+        # every reference is the callee of a call, all inside one outermost function (or method) F
+        parents: Dict[int, ast.AST] = {}
+        for n in ast.walk(tree):
+            for c in ast.iter_child_nodes(n):
+                parents[id(c)] = n
+        refs = [n for n in ast.walk(tree) if isinstance(n, ast.Name) and n.id == name and isinstance(n.ctx, ast.Load)]
+        if not refs or any(isinstance(n, ast.Constant) and n.value == name for n in ast.walk(tree)):
+            continue
+        calls_: List[ast.Call] = []
+        outers = set()
+        ok = True
+        for r in refs:
+            par = parents.get(id(r))
+            if not (isinstance(par, ast.Call) and par.func is r):
+                ok = False
+                break
+            calls_.append(par)
+            x = r
+            outer = None
+            while id(x) in parents:
+                x = parents[id(x)]
+                if isinstance(x, ast.FunctionDef):
+                    outer = x
+            if outer is None or outer is h:
+                ok = False
+                break
+            outers.add(id(outer))
+            F = outer
+        if not ok or len(outers) != 1:
+            continue
+        if any(isinstance(a, ast.Starred) for c in calls_ for a in c.args) or any(k.arg is None for c in calls_ for k in c.keywords):
+            continue
+        params = [a.arg for a in h.args.args]
+        f_names_stores: Dict[str, int] = {}
+        for n in ast.walk(F):
+            if isinstance(n, ast.Name) and isinstance(n.ctx, (ast.Store, ast.Del)):
+                f_names_stores[n.id] = f_names_stores.get(n.id, 0) + 1
+        f_params = set(_params_of(F))
+        h_stores = {n.id for n in ast.walk(h) if isinstance(n, ast.Name) and isinstance(n.ctx, (ast.Store, ast.Del))}
+        h_locals = _locals_of(h)
+        captured: Dict[str, str] = {}
+        for i, q in enumerate(params):
+            args = []
+            for c in calls_:
+                a = c.args[i] if i < len(c.args) else next((k.value for k in c.keywords if k.arg == q), None)
+                args.append(a)
+            if any(a is None or not isinstance(a, ast.Name) for a in args) or len({a.id for a in args}) != 1:
+                break  # only a prefix of the parameters is captured
+            nm = args[0].id
+            # the name means the same object at every call: a parameter of F that is never re-bound, or a local bound once at F's top level
+            same = (nm in f_params and f_names_stores.get(nm, 0) == 0) or (nm not in f_params and f_names_stores.get(nm, 0) == 1 and any(
+                isinstance(st, (ast.Assign, ast.AnnAssign)) and any(isinstance(t, ast.Name) and t.id == nm for t in (st.targets if isinstance(st, ast.Assign) else [st.target])) for st in F.body))
+            # inside a nested function of F the name must still be F's (not a parameter / local of the nested function)
+            if not same or q in h_stores or (nm != q and nm in (h_locals | set(params))):
+                break
+            # calls from a nested function of F: the name must not be shadowed there
+            shadowed = False
+            for c in calls_:
+                x = c
+                while id(x) in parents:
+                    x = parents[id(x)]
+                    if isinstance(x, ast.FunctionDef) and x is not F:
+                        if nm in _params_of(x) or nm in _locals_of(x):
+                            shadowed = True
+                    if x is F:
+                        break
+            if shadowed:
+                break
+            captured[q] = nm
+        if not captured or list(captured) != params[:len(captured)]:
+            continue
+        k = len(captured)
+        # defaults belong to the trailing parameters: still aligned after dropping a prefix (defaults are right-aligned)
+        if len(h.args.defaults) > len(params) - k:
+            continue
+        # where to put it: before the first top-level statement of F that mentions the helper, after the captured locals are bound
+        first_use = next((i for i, st in enumerate(F.body) if any(isinstance(n, ast.Name) and n.id == name for n in ast.walk(st))), None)
+        if first_use is None:
+            continue
+        bound_at = 0
+        for nm in captured.values():
+            if nm in f_params:
+                continue
+            idx = next((i for i, st in enumerate(F.body) if isinstance(st, (ast.Assign, ast.AnnAssign)) and any(isinstance(t, ast.Name) and t.id == nm for t in (st.targets if isinstance(st, ast.Assign) else [st.target]))), None)
+            if idx is None:
+                bound_at = None
+                break
+            bound_at = max(bound_at, idx + 1)
+        if bound_at is None or bound_at > first_use:
+            continue
+        if name in f_params or f_names_stores.get(name, 0):
+            continue
+        nh = copy.deepcopy(h)
+        nh.args.args = nh.args.args[k:]
+        ren = {q: nm for q, nm in captured.items() if q != nm}
+        if ren:
+            for n in ast.walk(nh):
+                if isinstance(n, ast.Name) and n.id in ren:
+                    n.id = ren[n.id]
+        for c in calls_:
+            npos = max(0, len(c.args) - k)
+            c.args = c.args[k:] if len(c.args) >= k else []
+            c.keywords = [kw for kw in c.keywords if kw.arg not in captured]
+        F.body.insert(first_use, nh)
+        tree.body.remove(h)
+        ast.fix_missing_locations(F)
+        changed = True
+    return changed
 
 
 def _objects_to_closures(tree: ast.Module) -> None:
@@ -392,6 +566,112 @@ def _while_true(tree: ast.Module) -> None:
                 else:
                     out.append(st)
             setattr(holder, fld, out)
+
+
+def _clamp_idiom(tree: ast.Module) -> None:
+    """i = <call> - <int> ; if i < 0: i = 0     ==>     i = max(0, <call> - <int>)      (integer index arithmetic)"""
+    for holder in ast.walk(tree):
+        for fld in ("body", "orelse", "finalbody"):
+            body = getattr(holder, fld, None)
+            if not (isinstance(body, list) and body and isinstance(body[0], ast.stmt)):
+                continue
+            i = 0
+            while i + 1 < len(body):
+                a, c = body[i], body[i + 1]
+                i += 1
+                if not (isinstance(a, ast.Assign) and len(a.targets) == 1 and isinstance(a.targets[0], ast.Name) and isinstance(a.value, ast.BinOp) and isinstance(a.value.op, (ast.Sub, ast.Add))
+                        and isinstance(a.value.left, ast.Call) and isinstance(a.value.right, ast.Constant) and isinstance(a.value.right.value, int)):
+                    continue
+                x = a.targets[0].id
+                if not (isinstance(c, ast.If) and not c.orelse and len(c.body) == 1 and isinstance(c.body[0], ast.Assign) and len(c.body[0].targets) == 1
+                        and isinstance(c.body[0].targets[0], ast.Name) and c.body[0].targets[0].id == x and isinstance(c.body[0].value, ast.Constant) and c.body[0].value.value == 0
+                        and isinstance(c.test, ast.Compare) and len(c.test.ops) == 1):
+                    continue
+                t = c.test
+                lt = isinstance(t.ops[0], ast.Lt) and isinstance(t.left, ast.Name) and t.left.id == x and isinstance(t.comparators[0], ast.Constant) and t.comparators[0].value == 0
+                gt = isinstance(t.ops[0], ast.Gt) and isinstance(t.comparators[0], ast.Name) and t.comparators[0].id == x and isinstance(t.left, ast.Constant) and t.left.value == 0
+                if not (lt or gt):
+                    continue
+                a.value = ast.copy_location(ast.Call(func=ast.Name(id="max", ctx=ast.Load()), args=[ast.Constant(value=0), a.value], keywords=[]), a.value)
+                ast.fix_missing_locations(a)
+                body[i] = ast.copy_location(ast.Pass(), c)
+
+
+def _drain_loops(tree: ast.Module) -> None:
+    """while Q: yield Q.popleft()    ==>    if Q: yield from Q ; Q.clear()
+    (Q a plain name): the consumer of the generator cannot touch Q between two yields, so the same elements come out in the same order and Q
+    ends empty either way."""
+    for holder in ast.walk(tree):
+        for fld in ("body", "orelse", "finalbody"):
+            body = getattr(holder, fld, None)
+            if not (isinstance(body, list) and body and isinstance(body[0], ast.stmt)):
+                continue
+            for i, st in enumerate(body):
+                if (isinstance(st, ast.While) and isinstance(st.test, ast.Name) and not st.orelse and len(st.body) == 1 and isinstance(st.body[0], ast.Expr)
+                        and isinstance(st.body[0].value, ast.Yield) and isinstance(st.body[0].value.value, ast.Call) and isinstance(st.body[0].value.value.func, ast.Attribute)
+                        and st.body[0].value.value.func.attr == "popleft" and not st.body[0].value.value.args and isinstance(st.body[0].value.value.func.value, ast.Name)
+                        and st.body[0].value.value.func.value.id == st.test.id):
+                    q = st.test.id
+                    yf = ast.Expr(value=ast.YieldFrom(value=ast.Name(id=q, ctx=ast.Load())))
+                    cl = ast.Expr(value=ast.Call(func=ast.Attribute(value=ast.Name(id=q, ctx=ast.Load()), attr="clear", ctx=ast.Load()), args=[], keywords=[]))
+                    new = ast.If(test=ast.Name(id=q, ctx=ast.Load()), body=[yf, cl], orelse=[])
+                    for n in (yf, cl, new):
+                        ast.copy_location(n, st)
+                        ast.fix_missing_locations(n)
+                    body[i] = new
+
+
+def _rotate_carried(tree: ast.Module) -> None:
+    """x = E ; while T(x): BODY ; x = E     ==>     while T(E): x = E ; BODY
+    (E free of calls with effects and of x, x assigned nowhere else in the loop, no continue in BODY, x not read after the loop):
+    the loop tests the fresh value instead of carrying it from the end of the previous iteration."""
+    def pure(e: ast.AST) -> bool:
+        for n in ast.walk(e):
+            if isinstance(n, ast.Call):
+                f = n.func
+                if not (isinstance(f, ast.Attribute) and f.attr in ("find", "rfind", "index", "count", "startswith", "endswith", "lower", "upper", "strip", "get")) and \
+                        not (isinstance(f, ast.Name) and f.id in ("len", "min", "max", "abs", "int", "str")):
+                    return False
+            if isinstance(n, (ast.Yield, ast.YieldFrom, ast.Await, ast.NamedExpr, ast.Lambda, ast.ListComp, ast.GeneratorExp, ast.SetComp, ast.DictComp)):
+                return False
+        return True
+
+    for fn in [n for n in ast.walk(tree) if isinstance(n, ast.FunctionDef)]:
+        for holder in ast.walk(fn):
+            for fld in ("body", "orelse", "finalbody"):
+                body = getattr(holder, fld, None)
+                if not (isinstance(body, list) and body and isinstance(body[0], ast.stmt)):
+                    continue
+                i = 0
+                while i + 1 < len(body):
+                    a, w = body[i], body[i + 1]
+                    i += 1
+                    if not (isinstance(a, ast.Assign) and len(a.targets) == 1 and isinstance(a.targets[0], ast.Name) and isinstance(w, ast.While) and not w.orelse and len(w.body) >= 2):
+                        continue
+                    x = a.targets[0].id
+                    last = w.body[-1]
+                    if not (isinstance(last, ast.Assign) and len(last.targets) == 1 and isinstance(last.targets[0], ast.Name) and last.targets[0].id == x and ast.dump(last.value) == ast.dump(a.value)):
+                        continue
+                    if not pure(a.value) or any(isinstance(n, ast.Name) and n.id == x for n in ast.walk(a.value)):
+                        continue
+                    inner = w.body[:-1]
+                    if any(isinstance(n, ast.Continue) for st in inner for n in ast.walk(st)) or any(isinstance(n, ast.Name) and n.id == x and isinstance(n.ctx, (ast.Store, ast.Del)) for st in inner for n in ast.walk(st)):
+                        continue
+                    if not any(isinstance(n, ast.Name) and n.id == x for n in ast.walk(w.test)):
+                        continue
+                    after = body[i + 1:]
+                    used_after = any(isinstance(n, ast.Name) and n.id == x and isinstance(n.ctx, ast.Load) for st in after for n in ast.walk(st))
+                    # reads of x after the loop in enclosing blocks: be conservative - x must not be read anywhere outside this loop
+                    reads_elsewhere = sum(1 for n in ast.walk(fn) if isinstance(n, ast.Name) and n.id == x and isinstance(n.ctx, ast.Load)) - \
+                        sum(1 for n in ast.walk(w) if isinstance(n, ast.Name) and n.id == x and isinstance(n.ctx, ast.Load))
+                    if used_after or reads_elsewhere:
+                        continue
+                    new_test = _Subst({x: a.value}, {}).visit(copy.deepcopy(w.test))
+                    head = ast.copy_location(ast.Assign(targets=[ast.Name(id=x, ctx=ast.Store())], value=copy.deepcopy(a.value)), w)
+                    w.test = new_test
+                    w.body = [head] + inner
+                    ast.fix_missing_locations(w)
+                    body[i - 1] = ast.copy_location(ast.Pass(), a)
 
 
 def _record_classes(tree: ast.Module) -> Dict[str, List[str]]:
@@ -1484,6 +1764,86 @@ def _inline_helpers(mod: str, tree: ast.Module, all_helpers, trees, pkgs: Set[st
             changed = True
             return [pre, st]
 
+        def _for_over_tail_yield(st: ast.For, h: _Helper, recv) -> Optional[List[ast.stmt]]:
+            """The consuming body leaves or continues its loop.  That is still the generator's own loop when the generator is
+            `PRE...; for x in it: ...; yield E` with the single yield as the last thing an iteration does and nothing after the loop:
+            `for T in gen(..): BODY` is then `PRE...; for x in it: ...; T = E; BODY` (break / continue / return in BODY mean the same)."""
+            own = list(_own_nodes(h.node))
+            if any(isinstance(n, (ast.Return, ast.YieldFrom, ast.Try, ast.With)) for n in own):
+                return None
+            ys = [n for n in own if isinstance(n, ast.Yield)]
+            if not ys or any(y.value is None for y in ys):
+                return None
+            body = list(h.body)
+            if not body or not isinstance(body[-1], ast.For) or body[-1].orelse or any(isinstance(n, (ast.Yield, ast.For, ast.While)) for x in body[:-1] for n in ast.walk(x)):
+                return None
+            loop = body[-1]
+
+            def has_yield(x) -> bool:
+                return any(isinstance(n, ast.Yield) for n in ast.walk(x))
+
+            def tail_yield(stmts) -> bool:
+                # every yield is the last thing its path through the iteration does
+                for i, x in enumerate(stmts):
+                    if not has_yield(x):
+                        continue
+                    if i != len(stmts) - 1:
+                        return False
+                    if isinstance(x, ast.Expr) and isinstance(x.value, ast.Yield):
+                        return True
+                    if isinstance(x, ast.If) and not has_yield(x.test):
+                        return tail_yield(x.body) and tail_yield(x.orelse)
+                    return False
+                return True
+
+            if not tail_yield(loop.body) or any(isinstance(n, (ast.Break, ast.For, ast.While)) for x in loop.body for n in ast.walk(x)):
+                return None
+            b = h.bind(st.iter, recv)
+            if b is None:
+                return None
+            _counter[0] += 1
+            suffix = f"__inl{_counter[0]}"
+            pre: List[ast.stmt] = []
+            mapping: Dict[str, ast.expr] = {}
+            body_stores = {n.id for x in st.body for n in ast.walk(x) if isinstance(n, ast.Name) and isinstance(n.ctx, ast.Store)}
+            for p_, a in b.items():
+                if _simple(a) and p_ not in h.locals and not (isinstance(a, ast.Name) and a.id in body_stores):
+                    mapping[p_] = a
+                else:
+                    tmp = p_ + suffix
+                    pre.append(ast.copy_location(ast.Assign(targets=[ast.Name(id=tmp, ctx=ast.Store())], value=copy.deepcopy(a)), st))
+                    mapping[p_] = ast.Name(id=tmp, ctx=ast.Load())
+            imported = {(a_.asname or a_.name).split(".")[0] for n_ in ast.walk(h.node) if isinstance(n_, (ast.Import, ast.ImportFrom)) for a_ in n_.names}
+            rename = {n: n + suffix for n in h.locals if n not in imported}
+            for p_ in b:
+                if p_ in h.locals:
+                    rename[p_] = p_ + suffix
+                    mapping.pop(p_, None)
+            body_copy = [_Subst(mapping, rename).visit(copy.deepcopy(x)) for x in h.body]
+
+            class Y(ast.NodeTransformer):
+                def visit_FunctionDef(self, node):
+                    return node
+
+                def visit_Lambda(self, node):
+                    return node
+
+                def visit_Expr(self, node: ast.Expr):
+                    if isinstance(node.value, ast.Yield):
+                        tgt = copy.deepcopy(st.target)
+                        for n in ast.walk(tgt):
+                            if hasattr(n, "ctx"):
+                                n.ctx = ast.Store()
+                        asg = ast.copy_location(ast.Assign(targets=[tgt], value=node.value.value), st)
+                        return [asg] + [copy.deepcopy(x) for x in st.body]
+                    return node
+
+            res: List[ast.stmt] = []
+            for x in body_copy:
+                r = Y().visit(x)
+                res.extend(r if isinstance(r, list) else [r])
+            return pre + res
+
         def _for_over_generator(st: ast.For, h: _Helper, recv) -> Optional[List[ast.stmt]]:
             def binds_to_this_loop(stmts) -> bool:
                 # break / continue / return / yield that belong to the consuming loop (not to a loop nested in its body)
@@ -1508,7 +1868,7 @@ def _inline_helpers(mod: str, tree: ast.Module, all_helpers, trees, pkgs: Set[st
                 return False
 
             if binds_to_this_loop(st.body):
-                return None
+                return _for_over_tail_yield(st, h, recv)
             own = list(_own_nodes(h.node))
             if any(isinstance(n, (ast.Return, ast.YieldFrom, ast.Try, ast.With)) for n in own):
                 return None
